@@ -111,8 +111,9 @@ class Run:
             print("replay of %s: %d violation(s)" % (os.environ["VERIF_REPLAY"], len(self.violations)))
             return 1 if self.violations else 0
         evdir = os.path.join(VERIF, "evidence")
-        if os.path.realpath(os.environ.get("VERIF_REPO", "/repo")) != "/repo":
-            evdir = "/tmp/verif-alt-evidence"  # runs against scratch copies never touch the committed evidence
+        partial = any(k.endswith("_ONLY") and v for k, v in os.environ.items())
+        if os.path.realpath(os.environ.get("VERIF_REPO", "/repo")) != "/repo" or partial:
+            evdir = "/tmp/verif-alt-evidence"  # runs against scratch copies / development runs of single phases never touch the committed evidence
         os.makedirs(evdir, exist_ok=True)
         tmp = os.path.join(evdir, self.pid + ".json.tmp")
         with open(tmp, "w") as f:
@@ -303,6 +304,9 @@ def pmap(fn, cases, setup=None, nproc=None, describe=None):
 
 def run_phase(run, name, fn, cases, setup=None, rule=None, nproc=None, exhaustive=True, describe=None, extra=None):
     t0 = time.time()
+    only = [t for t in os.environ.get("VERIF_ONLY", "").split(",") if t]   # development aid: phases whose name contains one of these
+    if only and not any(t in name for t in only):
+        return Stats()
     if REPLAY is not None:
         if REPLAY.get("phase") != name:
             return Stats()
